@@ -353,6 +353,16 @@ class Interp:
             if owner is not None and not isinstance(owner, type):
                 return self.getattr_default(owner, args[0])
             return self.getattr_default(args[0], args[1])
+        if isinstance(owner, struct.Struct):
+            # precompiled formats: same models as the module-level functions
+            if name == "pack":
+                return models.pack(owner.format, *args)
+            if name == "unpack":
+                return models.unpack(owner.format, *args)
+            if name == "unpack_from":
+                return models.unpack_from(owner.format, *args, **kwargs)
+            if name == "pack_into":
+                return models.pack_into(owner.format, *args)
         if isinstance(owner, (bytes, bytearray)) and not isinstance(owner, type):
             if name == "join":
                 return models.bytes_join(owner, list(args[0]))
